@@ -124,6 +124,59 @@ fn entry_eq_py(e: &Entry, key: &str, p: &Value) -> Result<(), String> {
     Ok(())
 }
 
+impl C17 {
+    /// The cache the reference implementation wrote is handed to user 65533 (files world-readable,
+    /// as a shared cache would be) and read by user 65534 through every read-only call, in a driver
+    /// process: reading needs nothing but read permission.
+    fn read_as_other_user(&self, ctx: &Ctx, model: &Model, prog: &Program, addrs: &[AddrRef], st: &mut Stats, env: &mut WorkerEnv) -> Result<(), String> {
+        let chown = Command::new("chown").args(["-R", "65533:65533"]).arg(&ctx.cache).status();
+        let chmod = Command::new("chmod").args(["-R", "a+rX"]).arg(&ctx.cache).status();
+        if !chown.map(|s| s.success()).unwrap_or(false) || !chmod.map(|s| s.success()).unwrap_or(false) {
+            st.class("other_user_unavailable");
+            return Ok(());
+        }
+        let mut steps = Vec::new();
+        for k in 0..prog.keys.len() {
+            for fl in [Fl::Sync, Fl::Async] {
+                steps.push(Step { op: Op::Meta { key: k }, fl });
+                steps.push(Step { op: Op::Read { key: k }, fl });
+                steps.push(Step { op: Op::Stream { by: By::Key(k), bufs: vec![7, 4096] }, fl });
+                steps.push(Step { op: Op::IdxFind { key: k }, fl });
+            }
+        }
+        for a in addrs {
+            for fl in [Fl::Sync, Fl::Async] {
+                steps.push(Step { op: Op::Exists { addr: *a }, fl });
+                steps.push(Step { op: Op::ReadHash { addr: *a }, fl });
+            }
+        }
+        if model.index_dir {
+            steps.push(Step { op: Op::List, fl: Fl::Sync });
+        }
+        let ro = Program { keys: prog.keys.clone(), blobs: prog.blobs.clone(), steps };
+        let pf = env.scratch.root.join("ro_prog.json");
+        std::fs::write(&pf, serde_json::to_string(&ro).unwrap()).map_err(|e| format!("INFRA: {e}"))?;
+        let of = env.scratch.root.join("ro_out.jsonl");
+        let outs = match crate::sup::run_fresh_as(65534, &ctx.cache, &ctx.scratch, &pf, 0, ro.steps.len(), &of)? {
+            Some(o) => o,
+            None => {
+                st.class("other_user_unavailable");
+                return Ok(());
+            }
+        };
+        if outs.len() != ro.steps.len() {
+            return Err(format!("reader running as another user: {} of {} calls returned", outs.len(), ro.steps.len()));
+        }
+        let mut m = model.clone();
+        for (s, (_, o, t0, t1)) in ro.steps.iter().zip(&outs) {
+            st.eval(1);
+            m.step(ctx, s, o, *t0, *t1).map_err(|e| format!("cache owned by another user (world-readable), read by an unprivileged user: {:?}/{:?}: {e}", s.op, s.fl))?;
+        }
+        st.class("read_by_another_user");
+        Ok(())
+    }
+}
+
 impl Engine for C17 {
     type Case = Case;
     fn id(&self) -> &'static str {
@@ -335,6 +388,10 @@ impl Engine for C17 {
             }
         }
         basic::content_invariant(&ctx, &model, false).map_err(|e| format!("cache written by the independent implementation: {e}"))?;
+        // ---- the same cache, owned by one user and read by another (unprivileged) one ----
+        if (hash_of(c) >> 9) % 3 == 0 && wrote > 0 {
+            self.read_as_other_user(&ctx, &model, prog, &addrs, st, env)?;
+        }
         let multi = per_key.values().any(|&n| n >= 2);
         let non_ascii = prog.keys.iter().any(|k| !k.is_ascii());
         if multi {
